@@ -36,7 +36,7 @@ theorem bodyCallbackC_RP (o : Owner) (re : List Nat) (st : Status) (t : Nat) (re
     RP cfg r0 (L ++ (bodyCallbackC goC o re st t rec s).2) σ (bodyCallbackC goC o re st t rec s).1.1 := by
   unfold bodyCallbackC
   split
-  · simpa only [List.append_nil] using h
+  · simpa only [RP, chan_frame, List.append_nil] using h
   · rename_i id
     split
     · simpa only [RP, chan_frame, List.append_nil] using h
